@@ -84,6 +84,8 @@ type Exec struct {
 	entry    *State
 	usedModels map[string]string
 	axiomsLoaded bool
+	shaArgs []T
+	shaPCs [][]T
 }
 
 func (x *Exec) fail(format string, a ...interface{}) {
